@@ -70,7 +70,8 @@ Fixpoint tree_atoms (t : dtree) : list sval :=
 Record kinfo := { ki_key : skey; ki_cuts : list N; ki_mod : N }.
 
 Definition ord_ok (op : cmpop) (t : cty) : bool := is_eqne op || negb (signed t).
-Definition pow2m1 (m : N) : bool := N.land (m + 1) m =? 0.      (* m = 2^j - 1 *)
+(* m = 2^j - 1 for some j <= 64 *)
+Definition pow2m1 (m : N) : bool := existsb (fun j => m =? N.ones (N.of_nat j)) (seq 0 65).
 
 Definition atom_info (a : sval) : option (list kinfo) :=
   match a with
@@ -99,15 +100,17 @@ Fixpoint key_in (k : skey) (l : list skey) : bool :=
 Fixpoint dedup_keys (l : list skey) (acc : list skey) : list skey :=
   match l with [] => rev acc | k :: r => if key_in k acc then dedup_keys r acc else dedup_keys r (k :: acc) end.
 
+Fixpoint dedupN (l : list N) (acc : list N) : list N :=
+  match l with [] => rev acc | x :: r => if existsb (N.eqb x) acc then dedupN r acc else dedupN r (x :: acc) end.
 Definition cuts_of (inf : list kinfo) (k : skey) : list N :=
-  0 :: flat_map (fun i => if skey_eqb (ki_key i) k then ki_cuts i else []) inf.
+  dedupN (0 :: flat_map (fun i => if skey_eqb (ki_key i) k then ki_cuts i else []) inf) [].
 Definition mod_of (inf : list kinfo) (k : skey) : N :=
-  fold_left (fun m i => if skey_eqb (ki_key i) k then N.max m (ki_mod i) else m) inf 1.
+  fold_left (fun m i => if skey_eqb (ki_key i) k then N.lcm m (ki_mod i) else m) inf 1.
 
 (* residues 0 .. m-1 *)
 Definition residues (m : N) : list N := map N.of_nat (seq 0 (N.to_nat m)).
 Definition cands (inf : list kinfo) (k : skey) : list N :=
-  flat_map (fun c => map (fun r => c + r) (residues (mod_of inf k))) (cuts_of inf k).
+  dedupN (flat_map (fun c => map (fun r => c + r) (residues (mod_of inf k))) (cuts_of inf k)) [].
 
 (* the representative of x: the greatest cut below it, plus its residue *)
 Definition cut_below (cuts : list N) (x : N) : N :=
@@ -119,26 +122,39 @@ Definition assign := list (skey * N).
 Fixpoint world_of (l : assign) : world :=
   fun k => match l with [] => 0 | (k', v) :: r => if skey_eqb k k' then v else world_of r k end.
 
-Fixpoint enum (inf : list kinfo) (ks : list skey) : list assign :=
-  match ks with
-  | [] => [[]]
-  | k :: r => let rest := enum inf r in
-              flat_map (fun v => map (fun l => (k, v) :: l) rest) (cands inf k)
+(* all assignments of candidate values to the keys of the table kc (on top of acc), without
+   building the product *)
+Fixpoint all_assign (kc : list (skey * list N)) (acc : assign) (Q : assign -> bool) : bool :=
+  match kc with
+  | [] => Q acc
+  | (k, vs) :: r => forallb (fun v => all_assign r ((k, v) :: acc) Q) vs
+  end.
+Fixpoint find_assign (kc : list (skey * list N)) (acc : assign) (Q : assign -> bool) : option assign :=
+  match kc with
+  | [] => if Q acc then None else Some acc
+  | (k, vs) :: r =>
+      (fix go (vs : list N) : option assign :=
+         match vs with
+         | [] => None
+         | v :: vr => match find_assign r ((k, v) :: acc) Q with Some a => Some a | None => go vr end
+         end) vs
   end.
 
 Definition keys_of_info (inf : list kinfo) : list skey := dedup_keys (map ki_key inf) [].
+Definition cand_table (inf : list kinfo) : list (skey * list N) :=
+  map (fun k => (k, cands inf k)) (keys_of_info inf).
 
 Definition check_all (atoms : list sval) (Q : world -> bool) : bool :=
   match atoms_info atoms with
   | None => false
-  | Some inf => forallb (fun l => Q (world_of l)) (enum inf (keys_of_info inf))
+  | Some inf => all_assign (cand_table inf) [] (fun l => Q (world_of l))
   end.
 
 (* a counterexample assignment, for the replay (None: clean, or unsupported atom) *)
 Definition find_cex (atoms : list sval) (Q : world -> bool) : option assign :=
   match atoms_info atoms with
   | None => None
-  | Some inf => find (fun l => negb (Q (world_of l))) (enum inf (keys_of_info inf))
+  | Some inf => find_assign (cand_table inf) [] (fun l => Q (world_of l))
   end.
 Definition unsupported_atoms (atoms : list sval) : list sval :=
   filter (fun a => match atom_info a with None => true | _ => false end) atoms.
@@ -167,7 +183,8 @@ Record shape := { sh_callee : N;                (* the internal symbol *)
                   sh_ret : rkind;
                   sh_inline : bool }.           (* the internal function is one of the translated ones *)
 
-Record pspec := { p_off : form;                 (* when is this parameter offending *)
+Record pspec := { p_off : form;                 (* when this parameter must be refused *)
+                  p_may : form;                 (* when it may be refused (where the documentation is silent) *)
                   p_codes : list N }.           (* codes documented for it *)
 
 Record espec := { e_id : N;
@@ -225,22 +242,30 @@ Fixpoint code_admissible (c : N) (ps : list pspec) (bs : list bool) : bool :=
 
 (* ------------------------------------------------------------------ C16 *)
 
-(* G of C16: bs = [precondition of the internal symbol] ++ which parameters are offending *)
+(* G of C16: bs = [precondition of the internal symbol] ++ must-refuse flags ++ may-refuse flags *)
+Definition refused_ok (e : espec) (r : option sval) (tr : list event) (mays : list bool) : bool :=
+  quiet tr &&
+  match ret_const r with
+  | Some c => negb (c =? 0) && code_admissible c (e_params e) mays
+  | None => false
+  end.
+Definition accepted_ok (e : espec) (pre : bool) (r : option sval) (tr : list event) : bool :=
+  if pre then shape_ok (e_shape e) r tr
+  else (* in the documented domain, but the internal symbol cannot take it: succeed without it *)
+    quiet tr && match ret_const r with Some 0 => true | _ => false end.
 Definition g16 (e : espec) (res : dtree) (bs0 : list bool) : bool :=
   match res, bs0 with
   | Leaf r tr, pre :: bs =>
-      if any_true bs then
-        quiet tr &&
-        match ret_const r with
-        | Some c => negb (c =? 0) && code_admissible c (e_params e) bs
-        | None => false
-        end
-      else if pre then shape_ok (e_shape e) r tr
-      else (* in the documented domain, but the internal symbol cannot take it: succeed without it *)
-        quiet tr && match ret_const r with Some 0 => true | _ => false end
+      let n := length (e_params e) in
+      let musts := firstn n bs in
+      let mays := skipn n bs in
+      if any_true musts then refused_ok e r tr mays
+      else if any_true mays then refused_ok e r tr mays || accepted_ok e pre r tr
+      else accepted_ok e pre r tr
   | _, _ => false
   end.
-Definition forms16 (e : espec) : list form := e_pre e :: map p_off (e_params e).
+Definition forms16 (e : espec) : list form :=
+  e_pre e :: map p_off (e_params e) ++ map p_may (e_params e).
 Definition check16 (T : ftab) (e : espec) : bool :=
   match ftab_get T (e_id e) with
   | Some d => decide (entry_tree T d) (forms16 e) (g16 e)
@@ -353,30 +378,38 @@ Section C13.
 
   (* formulas: [passed; failed; aes ok; sha ok; same key] ++ offending parameters *)
   Definition forms13 (e : espec) : list form :=
-    [f_passed; f_failed; f_aes_ok; f_sha_ok; e_samekey e] ++ map p_off (e_params e).
+    [f_passed; f_failed; f_aes_ok; f_sha_ok; e_samekey e] ++ map p_may (e_params e).
 
+  Definition ret_is (r : option sval) (c : N) : bool :=
+    match ret_const r with Some x => x =? c | None => false end.
+  (* (XTS) the key pair was refused before anything was called: never a C13 violation *)
+  Definition refused (r : option sval) (tr : list event) : bool :=
+    ret_is r ERR_XTS_SAME_KEYS && no_call tr.
+  (* the call went through: the status was consulted (and whatever `ran` demands happened)
+     before one internal call with the arguments passed through *)
+  Definition went_through (e : espec) (ran : bool) (r : option sval) (tr : list event) : bool :=
+    calls B_CHECK (before_work tr) && ran && shape_ok (e_shape e) r (core tr).
+
+  (* C13 quantifies over otherwise-valid arguments: worlds with an offending parameter are
+     outside (C16 covers them on the default build) *)
   Definition g13_approved (e : espec) (res : dtree) (bs : list bool) : bool :=
     match res, bs with
     | Leaf r tr, passed :: failed :: aes_ok :: sha_ok :: same :: offs =>
-        let valid := negb (any_true offs) in
-        let pre := before_work tr in
-        (* (a) a failed status: nothing but the gate happens *)
-        (negb failed || (no_work tr && negb (match ret_const r with Some 0 => true | _ => false end))) &&
-        (negb (failed && valid && negb same) || match ret_const r with Some c => c =? ERR_SELF_TEST | None => false end) &&
-        (* (b) work only after the status was consulted and was "passed", or the self-tests
-               were both run before it and both succeeded *)
-        (no_work tr ||
-         (calls B_CHECK pre && negb failed &&
-          (passed || (calls id_aes pre && calls id_sha pre && aes_ok && sha_ok)))) &&
-        (*     tests run now and one fails: the call is blocked with the self-test error *)
-        (negb (negb passed && negb failed && negb (aes_ok && sha_ok) && valid && negb same) ||
-         (no_work tr && match ret_const r with Some c => c =? ERR_SELF_TEST | None => false end)) &&
-        (* (c) the gate does not block a healthy library: passed, or tests run now and pass *)
-        (negb ((passed || (negb failed && aes_ok && sha_ok)) && valid && negb same) ||
-         shape_ok (e_shape e) r (core tr)) &&
-        (* (d) XTS: identical keys are refused before anything is called *)
-        (negb same || (no_call tr && negb (match ret_const r with Some 0 => true | _ => false end))) &&
-        (negb (same && valid) || match ret_const r with Some c => c =? ERR_XTS_SAME_KEYS | None => false end)
+        if any_true offs then true
+        else if refused r tr then true
+        else if same then
+          (* identical XTS keys must be refused before anything is called, whatever the status *)
+          false
+        else if failed then
+          (* self-tests failed: the self-test error, nothing written, no crypto symbol reached *)
+          ret_is r ERR_SELF_TEST && no_work tr
+        else if passed then went_through e true r tr
+        else if aes_ok && sha_ok then
+          (* not run yet, and they pass now: both ran before the first piece of work *)
+          went_through e (calls id_aes (before_work tr) && calls id_sha (before_work tr)) r tr
+        else
+          (* not run yet, and one of them fails now: blocked *)
+          ret_is r ERR_SELF_TEST && no_work tr
     | _, _ => false
     end.
 
@@ -404,6 +437,42 @@ Section C13.
     | None => None
     end.
 End C13.
+
+(* ------------------------------------------------------------------ acceptors for native observations
+
+   What the native harness sees of one call of the real entry point: the return value, the
+   interposed internal calls with their argument registers, which argument buffers changed,
+   whether it faulted.  obs_leaf turns that into a Leaf so that the same G decides it
+   (L0 oracle: the property itself, evaluated on the real code's behaviour). *)
+Record obs := { o_ret : N; o_calls : list (N * list N); o_chg : list N; o_fault : bool; o_stubret : N }.
+
+Fixpoint symbolize (w : world) (expected : list sval) (got : list N) : list sval :=
+  match expected, got with
+  | x :: er, c :: gr => (if eval w x =? c then x else SConst c) :: symbolize w er gr
+  | _, _ => []
+  end.
+
+Definition obs_leaf (e : espec) (w : world) (o : obs) : dtree :=
+  let sh := e_shape e in
+  let callee := sh_callee sh in
+  let called := existsb (fun c => fst c =? callee) (o_calls o) in
+  let evs := map (fun c => if fst c =? callee then EvCall callee (symbolize w (sh_args sh) (snd c))
+                           else EvCall (fst c) []) (o_calls o) in
+  let wr := flat_map (fun j => match sh_store sh with
+                               | Some k => if (j =? k) && called then [EvWrite (KArg j) 0 (SKey (KExt callee 0))]
+                                           else [EvOpaque 99]
+                               | None => [EvOpaque 99] end) (o_chg o) in
+  let r := match sh_ret sh with
+           | RCallee => if called && (o_ret o =? o_stubret o) then SKey (KExt callee 0) else SConst (o_ret o)
+           | _ => SConst (o_ret o) end in
+  let inl := if sh_inline sh && (o_ret o =? 0) && negb (o_fault o) then [EvEnter callee (sh_args sh)] else [] in
+  Leaf (Some r) (inl ++ evs ++ (if sh_inline sh && (o_ret o =? 0) then [] else wr) ++
+                 (if o_fault o then [EvOpaque 98] else [])).
+
+Definition judge16 (e : espec) (l : assign) (o : obs) : bool :=
+  let w := world_of l in g16 e (obs_leaf e w o) (map (eval_form w) (forms16 e)).
+Definition judge13 (id_aes id_sha : N) (e : espec) (l : assign) (o : obs) : bool :=
+  let w := world_of l in g13 id_aes id_sha e (obs_leaf e w o) (map (eval_form w) (forms13 id_aes id_sha e)).
 
 (* every exported entry point has exactly one specification *)
 Definition covers (specs : list espec) (entries : list N) : bool :=
